@@ -247,7 +247,7 @@ fn tt_seq(args: &[String]) -> i32 {
                 let got = tt.retrieve(*k).map(|e| (e.eval, e.best_move, e.depth, match e.bounds { Bounds::Exact => 0, Bounds::Lower => 1, Bounds::Upper => 2 }, e.hash_key));
                 let want = model.get(k).map(|e| (e.0, e.1, e.2, e.3, *k));
                 if got != want {
-                    rep.violation = Some(format!("{{\"input\": {{\"ops (key,depth,move,score,bound)\": {:?}, \"lookup_key\": {}}}, \"real\": {}, \"expected\": {}}}", seq, k, jstr(&format!("{:?}", got)), jstr(&format!("{:?}", want))));
+                    rep.violation = Some(format!("{{\"input\": {{\"ops (key index, depth, move index [0=None,1=a,2=b], score, bound)\": {}, \"lookup_key\": {}}}, \"real\": {}, \"expected\": {}}}", jstr(&format!("{:?}", seq)), k, jstr(&format!("{:?}", got)), jstr(&format!("{:?}", want))));
                     return true;
                 }
             }
@@ -391,26 +391,29 @@ fn search_interrupt(args: &[String]) -> i32 {
     let depth = num_arg(args, "depth", 3) as u8;
     let maxn = num_arg(args, "maxnodes", 400) as u64;
     let fens: Vec<String> = match str_arg(args, "fen") { Some(f) => vec![f.to_string()], None => vec![
-        "8/8/8/4k3/8/8/4K3/8 w - - 0 1".into(), "8/8/4k3/8/2p5/8/B2P2K1/8 w - - 0 1".into(), "7k/8/5QK1/8/8/8/8/8 w - - 0 1".into(),
+        "8/8/8/4k3/8/8/4K3/8 w - - 0 1".into(), "8/8/4k3/8/2p5/8/B2P2K1/8 w - - 0 1".into(), "7k/8/5K2/6Q1/8/8/8/8 w - - 0 1".into(),
         "4k3/8/8/8/3pP3/8/8/4K3 b - e3 0 1".into(), "6k1/5ppp/8/8/8/8/8/R3K3 w Q - 0 1".into()] };
     let mut rep = Report::new("search-interrupt", &format!("{} positions x every node limit 1..{} x completed depth-{} search afterwards", fens.len(), maxn, depth));
     for fen in &fens {
         let board = Board::new(fen);
         verif_hook::set_node_limit(None);
-        let truth: Vec<i32> = (1..=depth).map(|d| Searcher::new().find_best_move(&board, d, None).0).collect();
+        let maxd = depth.max(4);
+        // values a completed search of depth d may legitimately report: the depth-d value, or that of a deeper search whose
+        // result is still cached (the engine reuses entries of depth >= d by design)
+        let truth: Vec<i32> = (1..=maxd).map(|d| Searcher::new().find_best_move(&board, d, None).0).collect();
         for n in 1..=maxn {
             for dd in 1..=depth {
                 let mut s = Searcher::new();
                 let rep_before = s.verif_repetition_len();
                 verif_hook::set_node_limit(Some(n));
-                let _ = s.find_best_move(&board, depth.max(4), Some(std::time::Duration::from_secs(3600)));
+                let _ = s.find_best_move(&board, maxd, Some(std::time::Duration::from_secs(3600)));
                 verif_hook::set_node_limit(None);
                 let rep_after = s.verif_repetition_len();
                 let again = s.find_best_move(&board, dd, None);
                 rep.evals += 1;
-                if rep_after != rep_before || again.0 != truth[dd as usize - 1] {
+                if rep_after != rep_before || !truth[(dd as usize - 1)..].contains(&again.0) {
                     rep.violation = Some(format!("{{\"input\": {{\"fen\": {}, \"interrupt_at_node\": {}, \"then_depth\": {}}}, \"real\": {{\"score\": {}, \"repetition_len_after\": {}}}, \"expected\": {{\"score\": {}, \"repetition_len_after\": {}}}}}",
-                        jstr(fen), n, dd, again.0, rep_after, truth[dd as usize - 1], rep_before));
+                        jstr(fen), n, dd, again.0, rep_after, jstr(&format!("one of {:?}", &truth[(dd as usize - 1)..])), rep_before));
                     return rep.finish();
                 }
             }
